@@ -15,34 +15,17 @@
  */
 extern void mpt_gnode_relink(MPT_STRUCT(node) *node)
 {
-	MPT_STRUCT(node) *start;
+	MPT_STRUCT(node) *curr, *prev;
 	
-	if (!(start = node)) {
+	if (!node) {
 		errno = EFAULT;
 		return;
 	}
-	
-	if (node->children) {
-		node->children->parent = node;
-	}
-	node = node->children;
-	
-	while (node && node != start) {
-		if (node->children) {
-			node->children->parent = node;
-			if (node->next) {
-				node->next->parent = node->parent;
-				node->next->prev = node;
-			}
-			node = node->children;
-		}
-		if (node->next) {
-			node->next->parent = node->parent;
-			node->next->prev = node;
-			node = node->next;
-		}
-		else {
-			node = node->parent->next;
-		}
+	prev = 0;
+	for (curr = node->children; curr; curr = curr->next) {
+		curr->parent = node;
+		curr->prev = prev;
+		mpt_gnode_relink(curr);
+		prev = curr;
 	}
 }
